@@ -154,9 +154,25 @@ def evaluate(case):
 # ------------------------------------------------------------------ shards
 
 
+# long strings over tiny alphabets (the regular-expression based types): every string up to
+# length 12..16 -- far beyond the number of states of any automaton for these languages
+LONG = {
+    "basic-key": ("a1-", 10, 12),
+    "identifier": ("a1_", 10, 12),
+    "dotted-name": ("a.", 14, 16),
+    "dotted-suffix": ("a.", 14, 16),
+    "ipaddr-or-hostname": ("a.-", 10, 12),
+    "boolean": ("onf", 8, 9),
+}
+
+
 def shards(tier, seed):
     specs = []
     thorough = tier == "thorough"
+    for name, (alpha, q, t) in sorted(LONG.items()):
+        for first in alpha:
+            specs.append({"kind": "enum", "type": name, "alpha": alpha, "bound": t if thorough else q,
+                          "first": first})
     for name, (alpha, q, t) in sorted(ENUM.items()):
         bound = t if thorough else q
         for first in alpha:
